@@ -349,6 +349,14 @@ class Model:
     def complete(self, t, outs):
         """Default completion rule from the C11 statement."""
         task = self.prog.tasks[t]
+        if getattr(task, 'completion', None):
+            # user completion expression: evaluated by an independent
+            # evaluator over the completed outputs
+            env = {n: (n in outs) for n in
+                   ['succeeded', 'failed', 'submitted', 'started', 'expired']
+                   + list(task.customs)}
+            env['submit_failed'] = 'submit-failed' in outs
+            return bool(eval(task.completion, {'__builtins__': {}}, env))
         ref = self.referenced_outputs(t)
         req = {c for c in task.customs if c in ref and not task.opt.get(c)}
         for o in ('started', 'submitted'):
